@@ -246,7 +246,7 @@ def gen_seq_op(rng, cfg, ents, malformed, history):
 
 
 # ------------------------------------------------------------------ running a case
-def run_real(cfg, ops=None, rng=None, nops=0, malformed=False):
+def run_real(cfg, ops=None, rng=None, nops=0, malformed=False, probe=None):
     real = RealEv(cfg)
     try:
         out_ops, results, tapes, props = [], [], [], []
@@ -287,6 +287,8 @@ def run_real(cfg, ops=None, rng=None, nops=0, malformed=False):
                 prev_abs_after = {}
             prev = cur
             prev_gotten = res[1]
+        if probe is not None:
+            probe(real)
         return out_ops, results, tapes, props
     finally:
         real.close()
@@ -373,14 +375,15 @@ def model_request(cfg, ops, tapes):
     return [C11.wire_cfg(cfg), wire_roots(cfg), [[wire_eop(o), t] for o, t in zip(ops, tapes)]]
 
 
-def eval_case(model, cfg, ops=None, rng=None, nops=0, malformed=False):
-    ops, results, tapes, props = run_real(cfg, ops=ops, rng=rng, nops=nops, malformed=malformed)
+def eval_case(model, cfg, ops=None, rng=None, nops=0, malformed=False, probe=None):
+    ops, results, tapes, props = run_real(cfg, ops=ops, rng=rng, nops=nops, malformed=malformed, probe=probe)
     mo = model.call(model_request(cfg, ops, tapes)) if ops else []
     # the model says WHY nothing was applied (1 = no id, 2 = walk event equal to the stored entry); the real side
     # is observed from outside (SyncState.update called or not), so the two are compared as "not applied"
     fine = [m[2] for m in mo]
     mo = [[m[0], m[1], 1 if m[2] == 2 else m[2]] for m in mo]
-    out = dict(ops=ops, mismatch=None, props=props, steps=len(ops), err=None, outcomes=[r[2] for r in results], fine=fine)
+    out = dict(ops=ops, mismatch=None, props=props, steps=len(ops), err=None, outcomes=[r[2] for r in results], fine=fine,
+               final=results[-1] if results else None)
     if mo != results:
         k = 0
         while k < min(len(mo), len(results)) and mo[k] == results[k]:
@@ -449,15 +452,45 @@ def shrink_case(model, case, pred):
 
 
 def corpus_worker(paths):
-    """replays corpus cases of kind event-sequence -> list of (file, result dict)"""
+    """replays corpus cases of kind event-sequence -> list of (file, doc, result dict).  doc["expect"] may hold
+    refuted (tags of the kept refutations that must be hit), lost_ids [[side, oid]...] (ids the final REAL state no longer
+    knows), hash_conflict [entry, bool] (SyncEntry.hash_conflict() of the real entry), path [entry, side, path]."""
     C11.instrument()
     model = fw.ModelProc("event")
     out = []
     for fn in paths:
         doc = json.load(open(fn))
         case = doc["case"]
-        r = eval_case(model, case["cfg"], ops=case["ops"])
-        out.append((os.path.basename(fn), doc, dict(mismatch=r["mismatch"], props=r["props"], err=r["err"], steps=r["steps"],
-                                                    outcomes=r["outcomes"])))
+        exp = doc.get("expect", {})
+        probed = {}
+
+        def probe(real, exp=exp, probed=probed):
+            if "hash_conflict" in exp:
+                probed["hash_conflict"] = bool(real.ent(exp["hash_conflict"][0]).hash_conflict())
+            if "path" in exp:
+                e, sd, _ = exp["path"]
+                probed["path"] = real.ent(e)[sd]._path
+            if "lost_ids" in exp:
+                probed["lost_ids"] = [[sd, o] for sd, o in exp["lost_ids"] if real.state.lookup_oid(sd, o) is None]
+            if "latest" in exp:
+                e = exp["latest"][0]
+                probed["latest"] = [bool(real.ent(e).is_latest_side(0)), bool(real.ent(e).is_latest_side(1))]
+        r = eval_case(model, case["cfg"], ops=case["ops"], probe=probe)
+        unmet = []
+        tags = [t for _, t, _ in r["props"]]
+        for t in exp.get("refuted", []):
+            if "refuted:" + t not in tags:
+                unmet.append("refutation %s not hit" % t)
+        if "hash_conflict" in exp and probed.get("hash_conflict") != exp["hash_conflict"][1]:
+            unmet.append("hash_conflict() is %r" % probed.get("hash_conflict"))
+        if "path" in exp and probed.get("path") != exp["path"][2]:
+            unmet.append("path is %r" % probed.get("path"))
+        if "lost_ids" in exp and probed.get("lost_ids") != exp["lost_ids"]:
+            unmet.append("ids unknown at the end: %r" % probed.get("lost_ids"))
+        if "latest" in exp and probed.get("latest") != exp["latest"][1]:
+            unmet.append("is_latest_side: %r" % probed.get("latest"))
+        claimed = [(st, t, x) for st, t, x in r["props"] if not t.startswith("refuted:") and not t.startswith("outside:")]
+        out.append((os.path.basename(fn), doc, dict(mismatch=r["mismatch"], claimed=claimed, err=r["err"], steps=r["steps"],
+                                                    outcomes=r["outcomes"], unmet=unmet, probed=probed)))
     model.close()
     return out
